@@ -119,6 +119,11 @@ class YosysBehavioralRTLIRToVVisitorL3(
         value = s.visit( node.value )
         s.signal_expr_prologue( node )
         attr = node.attr
+        if not hasattr( node.value, 'sexpr' ):
+          # e.g. a struct-typed temporary: it is one packed vector in the
+          # emitted text and has no flattened field variables
+          raise VerilogTranslationError( s.blk, node,
+            f"field {attr} of {value} cannot be read: only struct signals have flattened fields!" )
         s.check_res( node, attr )
         node.sexpr['s_attr'] += "__{}"
         node.sexpr['attr'].append( attr )
